@@ -73,7 +73,7 @@ def rule_forms(ctx):
         res.missing_anchor("the four blanket Predict impls (found %d)" % len(fns))
     for fn in fns:
         key = "%s[%s]" % (fn_key(fn), re.sub(r"\s+", "", fn["inputs"][1])[:50])
-        tr = Tracer(fn).run()
+        tr = Tracer(fn, inline=ctx.inliner()).run()
         res.instance(key)
         dt = [e for e in tr.events if e.kind == "call" and e.name == "default_target"]
         pi = [e for e in tr.events if e.kind == "call" and e.name == "predict_inplace"]
@@ -94,7 +94,8 @@ def rule_forms(ctx):
             res.ok()
             res.sample({"form": key, "shape": "t = default_target(&r); predict_inplace(&r, &mut t); return t / Dataset::new(r, t)"})
         else:
-            res.violate("%s : form" % key, "blanket form is not `default_target(&r); predict_inplace(&r, &mut t); return (r,) t` on the received records (extra calls: %s)" % sorted(set(e.name for e in others)), fn_loc(fn))
+            res.violate("%s : form" % key, "blanket form is not `default_target(&r); predict_inplace(&r, &mut t); return (r,) t` on the received records (extra calls: %s)" % sorted(set(e.name for e in others)), fn_loc(fn),
+                        undecided=not (dt and pi))
     return res.finish(4)
 
 
@@ -160,7 +161,7 @@ def rule_shape(ctx):
             res.ok()
             continue
         if len(fn["params"]) < 3 or fn["params"][2].get("k") != "Bind":
-            res.violate("%s : params" % key, "unexpected parameter shape (fail closed)", fn_loc(fn))
+            res.undecided("%s : params" % key, "unexpected parameter shape (fail closed)", fn_loc(fn))
             continue
         y = fn["params"][2]["name"]
         yl = fn["params"][2]["local"]
@@ -585,7 +586,7 @@ def rule_noint(ctx):
         inst = "%s::%s" % (crate, path)
         res.instance(inst)
         if a is None:
-            res.violate("%s : adt-not-found" % inst, "model type not found among the crate's ADTs (fail closed)")
+            res.undecided("%s : adt-not-found" % inst, "model type not found among the crate's ADTs (fail closed)")
             continue
         bad = []
         seen = set()
@@ -674,7 +675,7 @@ def rule_composite(ctx):
                     res.violate("%s : argmax-direction" % key, "the running arg-max does not keep the pair with the larger probability: `%s`" % r.e(cond), fn_loc(fn, n["ln"]))
                 break
         if not found:
-            res.violate("%s : argmax-not-found" % key, "running arg-max over (label, probability) pairs not found (fail closed)", fn_loc(fn))
+            res.undecided("%s : argmax-not-found" % key, "running arg-max over (label, probability) pairs not found (fail closed)", fn_loc(fn))
     # MultiTargetModel: into_shape((models, n)) followed by reversed_axes
     for fn in [f for f in predictors(F) if (f["d"].get("self_adt") or "").endswith("MultiTargetModel") and f["d"]["name"] == "predict_inplace"]:
         r = Render(fn["crate"])
